@@ -5,7 +5,9 @@
    cover the specification's list.  If NewStack's order or the list changes,
    exactly these lemmas stop checking. *)
 From Coq Require Import List Ascii String NArith Bool.
-From Martian.C14 Require Import Gen_HopByHop Gen_Stack Model Proofs_Base Proofs_Stack Proofs_Spec.
+From Coq Require Import Arith.
+From Martian.C14 Require Import Gen_HopByHop Gen_Stack Gen_Shared Model Proofs_Base Proofs_Stack Proofs_Spec
+  Proofs_Conc Proofs_Audit.
 Import ListNotations.
 
 Lemma gen_req_order : req_order = expected_req_order.
@@ -192,4 +194,97 @@ Proof.
   split.
   - intros e h Hn. apply c14_req_ok_iff. apply t_req_spec_guarded. exact Hn.
   - intros loop h st. apply c14_res_ok_iff. apply t_res_spec.
+Qed.
+
+(* ---------------- audit round ---------------- *)
+
+(* translator facts: nothing in the four modifier files can carry state from one
+   message to the next (no fields, read-only literal list ranged over once, no
+   writes to receiver fields or package variables) *)
+Lemma gen_no_shared_state : shared_state_free = true.
+Proof. reflexivity. Qed.
+
+Lemma gen_res_order_request_only_free : forall m, In m res_order -> m <> MForwarded /\ m <> MFraming.
+Proof.
+  intros m H. rewrite gen_res_order in H. unfold expected_res_order in H. simpl in H.
+  destruct H as [H|[H|[H|[]]]]; subst m; split; discriminate.
+Qed.
+
+Lemma s_schedule_independent :
+  shared_state_free = true /\
+  (forall envs hs sched i,
+     let final := sys_run mstate (fun j => mstep (envs j)) sched (req_sys envs hs) in
+     (forall r, m_res (final i) = Some r -> r = stack_req (envs i) (hs i)) /\
+     (List.length req_order < count_occ Nat.eq_dec sched i ->
+      m_res (final i) = Some (stack_req (envs i) (hs i)))) /\
+  (forall loops hs sts sched i,
+     let final := sys_run rstate (fun j => rstep (loops j)) sched (res_sys hs sts) in
+     (forall r, r_res (final i) = Some r -> r = stack_res (loops i) (hs i) (sts i)) /\
+     (List.length res_order < count_occ Nat.eq_dec sched i ->
+      r_res (final i) = Some (stack_res (loops i) (hs i) (sts i)))).
+Proof.
+  split; [exact gen_no_shared_state|].
+  split; [exact req_schedule_independent | exact res_schedule_independent].
+Qed.
+
+Lemma s_propfail_sound :
+  (forall e h o c, first_false (c14_req_clauses e h o) = Some c ->
+     exists P : Prop, In (c, P) (req_clause_props e h o) /\ ~ P) /\
+  (forall loop h st o c, first_false (c14_res_clauses loop h st o) = Some c ->
+     exists P : Prop, In (c, P) (res_clause_props loop h st o) /\ ~ P) /\
+  (forall e h o, first_false (c14_req_clauses e h o) = None ->
+     Forall (fun np => snd np) (req_clause_props e h o)) /\
+  (forall loop h st o, first_false (c14_res_clauses loop h st o) = None ->
+     Forall (fun np => snd np) (res_clause_props loop h st o)).
+Proof.
+  split; [exact req_propfail_sound|]. split; [exact res_propfail_sound|].
+  split; [exact req_ok_all_clauses | exact res_ok_all_clauses].
+Qed.
+
+Lemma s_driver_comparisons :
+  (forall a b, req_out_eqb a b = true <->
+     (forall k, values (o_hdr a) k = values (o_hdr b) k) /\ o_err a = o_err b /\
+     o_skip a = o_skip b /\ o_inner a = o_inner b) /\
+  (forall a b, res_out_eqb a b = true <->
+     (forall k, values (s_hdr a) k = values (s_hdr b) k) /\ s_status a = s_status b /\
+     s_err a = s_err b /\ s_inner a = s_inner b) /\
+  (forall a b, hdr_eqb a b = true <-> (forall k, values a k = values b k)) /\
+  (forall h ks k, values (without h ks) k = if mem k ks then [] else values h k) /\
+  (rfc_covered = true <-> (forall k, In k rfc_hop_by_hop -> In k fixed_hop)) /\
+  (forall h k, is_hopb h k = true <-> is_hop h k).
+Proof.
+  split; [exact req_out_eqb_iff|]. split; [exact res_out_eqb_iff|]. split; [exact hdr_eqb_iff|].
+  split; [exact values_without|]. split; [exact rfc_covered_iff | exact is_hopb_iff].
+Qed.
+
+Lemma s_closed_form : forall e h,
+  stack_req e h =
+  (if bad_framing h then mkReqOut (after_framing h) (Some EFraming) false false
+   else if names_self e h && negb (is_hopb h K_VIA)
+        then mkReqOut (after_fwd e h) (Some ELoop) true false
+        else mkReqOut (fst (mod_via e (after_fwd e h))) None false true) /\
+  (classify e h = Forwarded -> forall k, values (o_hdr (stack_req e h)) k = expect e h k) /\
+  (forall loop rh st, stack_res loop rh st =
+     if loop then mkResOut rh 400 true true else mkResOut (mod_hbh rh) st false true).
+Proof.
+  intros e h. rewrite stack_req_is_model.
+  destruct (stack_closed_form e h) as [A B]. split; [exact A|]. split; [exact B|].
+  intros loop rh st. rewrite stack_res_is_model. apply run_res_expected.
+Qed.
+
+Lemma s_totalisation :
+  (forall c s d, last (split_on c s) d = last (split_on c s) []) /\
+  (forall h, te_bad h = true -> values h K_TE <> []) /\
+  (forall tes d, tes <> [] ->
+     te_last_ok tes = beqb (trim (last (split_on comma (last tes d)) d)) CHUNKED) /\
+  (forall h, values h K_TE = [] -> bad_framing h = cl_conflict h) /\
+  (forall c s, split_on c s <> []) /\
+  (forall c, is_lower c = true -> (32 <= code c)%N) /\
+  (forall self x, entry_names self x = true -> exists f, second_field (trim x) = Some f /\ f = self) /\
+  (forall m, In m res_order -> m <> MForwarded /\ m <> MFraming).
+Proof.
+  split; [exact last_split_default_irrelevant|]. split; [exact te_bad_guarded|].
+  split; [exact te_last_ok_default_irrelevant|]. split; [exact framing_without_te|].
+  split; [exact split_on_nonempty|]. split; [exact to_upper_no_truncation|].
+  split; [exact entry_names_needs_second_field | exact gen_res_order_request_only_free].
 Qed.
